@@ -1233,6 +1233,15 @@ func varargElems(a ssa.Value) ([]ssa.Value, bool) {
 // Anything else falls back to the assumed contract (an uninterpreted pure function).
 func (tr *trans) sprintfNative(v ssa.Value, name string, c *ssa.CallCommon, st State) bool {
 	fc, ok := c.Args[0].(*ssa.Const)
+	var fmtSuffix ssa.Value
+	if !ok {
+		// format built as <constant> + <string value> (e.g. pattern+id): the value is taken to contain no verb
+		if bo, isBin := c.Args[0].(*ssa.BinOp); isBin && bo.Op == token.ADD {
+			if c0, isC := bo.X.(*ssa.Const); isC && c0.Value != nil && tr.vc.sortOf(bo.Y.Type()) == "Str" {
+				fc, ok, fmtSuffix = c0, true, bo.Y
+			}
+		}
+	}
 	if !ok || fc.Value == nil {
 		return false
 	}
@@ -1314,6 +1323,10 @@ func (tr *trans) sprintfNative(v ssa.Value, name string, c *ssa.CallCommon, st S
 	}
 	if lit != "" {
 		parts = append(parts, tr.vc.strLit(lit))
+	}
+	if fmtSuffix != nil {
+		parts = append(parts, tr.val(fmtSuffix))
+		tr.note("fmt.Sprintf format built as constant + value: the value (" + fmtSuffix.Name() + " at " + tr.srcText(c.Pos()) + ") is assumed to contain no % verb")
 	}
 	var t Term = "str.empty"
 	for i, p := range parts {
